@@ -79,6 +79,22 @@ func modeAlphabet(full bool) []modeCall {
 			modeCall{"New(opt WithJSONMode(false))", func(t *slog.Entry, seq int) (*slog.Entry, bool) {
 				return t.New(fmt.Sprintf("optn%d", seq), slog.WithJSONMode(false)), true
 			}, jsonNext(false)},
+			// New on a logger with options only (no name), with an empty name, and with the mode option behind another option
+			modeCall{"New(opt WithJSONMode(true)) without a name", func(t *slog.Entry, seq int) (*slog.Entry, bool) {
+				return t.New(slog.WithJSONMode(true)), true
+			}, jsonNext(true)},
+			modeCall{"New(opts WithJSONMode(),WithJSONMode(false)) without a name", func(t *slog.Entry, seq int) (*slog.Entry, bool) {
+				return t.New(slog.WithJSONMode(), slog.WithJSONMode(false)), true
+			}, func(s Format) Format { return jsonNext(false)(jsonNext(true)(s)) }},
+			modeCall{"New(opt WithColorMode(false)) without a name", func(t *slog.Entry, seq int) (*slog.Entry, bool) {
+				return t.New(slog.WithColorMode(false)), true
+			}, colorNext(false)},
+			modeCall{"New(\"\",opt WithColorMode(true))", func(t *slog.Entry, seq int) (*slog.Entry, bool) {
+				return t.New("", slog.WithColorMode(true)), true
+			}, colorNext(true)},
+			modeCall{"New(name,WithLevel,WithJSONMode(true))", func(t *slog.Entry, seq int) (*slog.Entry, bool) {
+				return t.New(fmt.Sprintf("optl%d", seq), slog.WithLevel(slog.AlwaysLevel), slog.WithJSONMode(true)), true
+			}, jsonNext(true)},
 			with("WithJSONMode(true,false)", func(t *slog.Entry) *slog.Entry { return t.WithJSONMode(true, false) }, jsonNext(false)),
 		)
 	}
